@@ -11994,6 +11994,8 @@ CK_RV SoftHSM::CreateObject(CK_SESSION_HANDLE hSession, CK_ATTRIBUTE_PTR pTempla
 
 	if (object == NULL || !p11object->init(object))
 	{
+		// Do not leave a partially built object behind
+		if (object != NULL) object->destroyObject();
 		delete p11object;
 		return CKR_GENERAL_ERROR;
 	}
@@ -12001,7 +12003,11 @@ CK_RV SoftHSM::CreateObject(CK_SESSION_HANDLE hSession, CK_ATTRIBUTE_PTR pTempla
 	rv = p11object->saveTemplate(token, isPrivate != CK_FALSE, attribs,attribsCount,op);
 	delete p11object;
 	if (rv != CKR_OK)
+	{
+		// The template was rejected: remove the object that was created for it
+		object->destroyObject();
 		return rv;
+	}
 
 	if (op == OBJECT_OP_CREATE)
 	{
@@ -12010,6 +12016,7 @@ CK_RV SoftHSM::CreateObject(CK_SESSION_HANDLE hSession, CK_ATTRIBUTE_PTR pTempla
 		    !object->setAttribute(CKA_LOCAL, false) ||
 		    !object->commitTransaction()))
 		{
+			object->destroyObject();
 			return CKR_GENERAL_ERROR;
 		}
 
@@ -12020,6 +12027,7 @@ CK_RV SoftHSM::CreateObject(CK_SESSION_HANDLE hSession, CK_ATTRIBUTE_PTR pTempla
 		    !object->setAttribute(CKA_NEVER_EXTRACTABLE, false) ||
 		    !object->commitTransaction()))
 		{
+			object->destroyObject();
 			return CKR_GENERAL_ERROR;
 		}
 	}
